@@ -5,6 +5,11 @@ from ..rules import convert, changed, pytaint, registry, sizes, slotsig, errexc
 
 def tu_check(tu):
     c = changed.analyse_conv(tu)
+    nw = convert.analyse_narrowing(tu)
+    # integer conversions only: the float32 narrowing is C13's (known finding there)
+    nw["findings"] = [x for x in nw["findings"] if "float" not in x["construct"]]
+    c["findings"] = c["findings"] + nw["findings"]
+    c["stats"] = dict(c["stats"], narrowing_slot_stores=nw["stats"].get("slot_stores", 0))
     return dict(findings=c["findings"], stats=c["stats"], dtype=convert.dtype_row(tu),
                 modfuncs=registry.module_functions(tu), sizes=sizes.c_facts(tu),
                 exc=sizes.c_read_translation(tu), slots=slotsig.analyse_tu(tu),
@@ -14,7 +19,7 @@ def tu_check(tu):
 def run(tier="quick", seed=0, use_cache=True):
     res = engine.Result("C09")
     res.rules = ["PY-TAINT", "CONV-BEFORE-MUT", "GROW-ROLLBACK", "READ-ABSENCE",
-                 "DTYPE-TABLE", "FAMILY-REG", "SIZE-WIRING", "SPLIT-POINT", "PY-NATIVE-CALL", "SLOT-SIG", "EXC-LEAK"]
+                 "DTYPE-TABLE", "FAMILY-REG", "SIZE-WIRING", "SPLIT-POINT", "PY-NATIVE-CALL", "SLOT-SIG", "EXC-LEAK", "NARROW-GUARD"]
     res.explanation = (
         "Agreement of the two implementations on the structural points the "
         "property names: (1) conversion discipline - Python: taint analysis of "
